@@ -308,10 +308,44 @@ def gen_node_case(rng, maxops):
     def pos():
         return rng.choice([0, 0, 1, 2, -1, -1, -2, 3, 5, -6, rng.randint(-7, 7)])
     ops = []
+    cur = list(tfs)          # the generator's own copy of the list, to aim in-place edits at transforms that exist
+
+    def simulate(op):
+        try:
+            k = op[0]
+            if k == 'append':
+                cur.append(op[1])
+            elif k == 'insert':
+                cur.insert(op[1], op[2])
+            elif k in ('set', 'param'):
+                cur[op[1]] = op[2]
+            elif k == 'pop':
+                cur.pop() if op[1] is None else cur.pop(op[1])
+            elif k == 'del':
+                del cur[op[1]]
+            elif k == 'swap':
+                cur[op[1]], cur[op[2]] = cur[op[2]], cur[op[1]]
+            elif k == 'reverse':
+                cur.reverse()
+            elif k == 'clear':
+                del cur[:]
+            elif k == 'extend':
+                cur.extend(op[1])
+            elif k == 'assign':
+                cur[:] = op[1]
+        except IndexError:
+            pass
     for _ in range(rng.randint(1, maxops)):
-        k = rng.choice(['append', 'append', 'insert', 'insert', 'set', 'pop', 'pop', 'del', 'swap', 'swap',
+        k = rng.choice(['append', 'append', 'insert', 'insert', 'set', 'pop', 'pop', 'del', 'swap', 'swap', 'param', 'param', 'param',
                         'reverse', 'reverse', 'clear', 'extend', 'assign', 'save', 'save', 'save'])
-        if k == 'append':
+        before = len(ops)
+        if k == 'param':
+            # change the parameters of a transform that is in the list, in place (t.x = ..., t.angle = ..., t.eye = ...)
+            if cur:
+                i = rng.randrange(len(cur))
+                old = cur[i]
+                ops.append([k, rng.choice([i, i - len(cur)]), dict(k=old['k'], vals=gen_vals(rng, old['k'], mode), style=old.get('style', 'py'))])
+        elif k == 'append':
             ops.append([k, spec()])
         elif k in ('insert', 'set'):
             ops.append([k, pos(), spec()])
@@ -330,6 +364,8 @@ def gen_node_case(rng, maxops):
                 ops.append([k])
         else:
             ops.append([k])
+        for o in ops[before:]:
+            simulate(o)
     ops.append(['save'])
     c['ops'] = ops
     return c
@@ -375,6 +411,8 @@ def op_line(op):
         return ' '.join(['node', k] + ctor_words(op[1]))
     if k in ('insert', 'set'):
         return ' '.join(['node', k, str(op[1])] + ctor_words(op[2]))
+    if k == 'param':        # for the list model an in-place change of parameters is the replacement of that element
+        return ' '.join(['node', 'set', str(op[1])] + ctor_words(op[2]))
     if k == 'pop':
         return 'node pop' if op[1] is None else 'node pop %d' % op[1]
     if k == 'del':
@@ -434,6 +472,20 @@ def make_tf(spec):
     lens = spec.get('lens', [3, 3, 3])
     a, b = lens[0], lens[0] + lens[1]
     return scene.LookAtTransform(arr(vals[:a]), arr(vals[a:b]), arr(vals[b:]))
+
+
+def set_params(t, spec):
+    """write the parameters of `spec` into the existing transform object `t`; False if it is of another kind"""
+    import numpy
+    fresh = make_tf(spec)
+    if type(fresh) is not type(t):
+        return False
+    for a in ('x', 'y', 'z', 'angle', 'eye', 'interest', 'upvector'):
+        if hasattr(fresh, a):
+            setattr(t, a, getattr(fresh, a))
+    if spec['k'] == 'M':
+        t.matrix = numpy.array(fresh.matrix)
+    return True
 
 
 def doc_bytes(body):
@@ -616,6 +668,8 @@ class RealNode(object):
                 l.insert(op[1], make_tf(op[2]))
             elif k == 'set':
                 l[op[1]] = make_tf(op[2])
+            elif k == 'param':
+                set_params(l[op[1]], op[2]) or l.__setitem__(op[1], make_tf(op[2]))
             elif k == 'pop':
                 l.pop() if op[1] is None else l.pop(op[1])
             elif k == 'del':
@@ -764,7 +818,7 @@ def model_ks(c):
             i = op[1]
             i = max(0, i + n) if i < 0 else min(i, n)
             ks.insert(i, spec_k(op[2]))
-        elif k == 'set':
+        elif k in ('set', 'param'):
             if norm(op[1]) is not None:
                 ks[norm(op[1])] = spec_k(op[2])
         elif k == 'pop':
